@@ -71,6 +71,7 @@ type Cfg struct {
 	RegWhitelist     []string // body reader whitelist for the register page (nil = shipped default)
 	StoreTZ          int      // seconds east of UTC of the timestamps the storer hands out (0: as stored)
 	NilSessionState  bool     // the session store answers a nil state for requests without a stored session
+	Localizer        string   // "" none | "empty": a catalogue without any entry (answers "" for every key, as the interface prescribes for missing keys) | "partial": entries for about half of the keys
 	PersistArbitrary bool     // the user type stores every key PutArbitrary hands it (only sensible with an explicit RegWhitelist)
 }
 
@@ -321,6 +322,12 @@ func New(cfg Cfg, salt string) (w *World, err error) {
 	ab.Config.Storage.SessionStateWhitelistKeys = append([]string(nil), cfg.Whitelist...)
 	ab.Config.Mail.From = "noreply@site.test"
 
+	switch cfg.Localizer {
+	case "empty":
+		ab.Config.Core.Localizer = catalogue{has: func(string) bool { return false }}
+	case "partial":
+		ab.Config.Core.Localizer = catalogue{has: func(id string) bool { return len(id)%2 == 0 }}
+	}
 	logger := defaults.NewLogger(logWriter{w})
 	ab.Config.Core.Logger = logger
 	ab.Config.Core.ViewRenderer = renderer{w: w, kind: "render"}
@@ -972,4 +979,15 @@ func SortedKeys(m map[string]string) []string {
 	}
 	sort.Strings(ks)
 	return ks
+}
+
+// catalogue is an application's translation catalogue: a translation for the keys it has, "" for the
+// others (which makes the library fall back to the key's default text).
+type catalogue struct{ has func(id string) bool }
+
+func (c catalogue) Localizef(ctx context.Context, key authboss.LocalizationKey, args ...any) string {
+	if !c.has(key.ID) {
+		return ""
+	}
+	return "«" + fmt.Sprintf(key.Default, args...) + "»"
 }
